@@ -20,4 +20,20 @@ let do_bytes toks =
   | _ -> "bad-case"
 
 
-let () = register "indent" do_indent; register "bytes" do_bytes
+(* indent2 <p1> <p2> (L <chunk> <acc> | U <chunk> <acc> | N)* *)
+let do_indent2 toks =
+  match toks with
+  | p1 :: p2 :: rest ->
+    let p1 = bytes_of_hex p1 and p2 = bytes_of_hex p2 in
+    let acc a = if a = "ok" then None else Some (z_of_string a) in
+    let rec ops = function
+      | "L" :: c :: a :: r -> Indent.OLower (bytes_of_hex c, acc a) :: ops r
+      | "U" :: c :: a :: r -> Indent.OUpper (bytes_of_hex c, acc a) :: ops r
+      | "N" :: r -> Indent.ONew :: ops r
+      | _ -> [] in
+    let (rs, out) = Indent.run2 p1 p2 (Indent.coq_NewWriter p1) (Indent.coq_NewWriter p2) (ops rest) in
+    let rs = Str_.concat "," (L.map (fun (n, e) -> string_of_z n ^ ":" ^ (if e then "E" else "ok")) rs) in
+    Printf.sprintf "%s %s" (hex_of_bytes out) (if rs = "" then "-" else rs)
+  | _ -> "bad-case"
+
+let () = register "indent" do_indent; register "bytes" do_bytes; register "indent2" do_indent2
